@@ -463,7 +463,9 @@ impl CliRejects {
                 let mut style = EfgStyle::plain();
                 style.share_outcomes = true;
                 let mut rr = Rng::new(case.style_seed);
-                let plain = to_efg(&case.game, &mut rr, &style).text;
+                // few distinct payoffs, so that many terminals really do share an outcome number
+                let coarse = case.game.map_payoffs(&mut |x| x.round());
+                let plain = to_efg(&coarse, &mut rr, &style).text;
                 let lines: Vec<&str> = plain.lines().collect();
                 // node lines start at index 1 (header first); the first node line is the root
                 // (a terminal written BEFORE the node is outside its subtree in this prefix-order
@@ -474,7 +476,7 @@ impl CliRejects {
                     return Err("not-applicable");
                 }
                 let i = *r.pick(&cand);
-                let pay = crate::cli::write::dec(crate::cli::write::milli(2.0 * case.game.stats().d() + 5.0));
+                let pay = crate::cli::write::dec(crate::cli::write::milli(2.0 * coarse.stats().d() + 5.0));
                 let mut out: Vec<String> = lines.iter().map(|s| s.to_string()).collect();
                 out[i] = format!("{} 9999 {{ {pay}, 0 }}", &lines[i][..lines[i].len() - 2]);
                 Ok(vec![one((out.join("\n") + "\n").into_bytes(), "file_semantic_gambit_interior_payment_breaks_constant_sum", Some(vec!["#constant-sum"]))])
